@@ -33,8 +33,9 @@ class Term:
         self.kind, self.node, self.arg = kind, node, arg
 
 
-def traverse_once(api, t, ids, pids, start, mode, as_np):
-    """Run one traversal on the real code; returns (log, returned value)."""
+def traverse_once(api, t, ids, pids, start, mode, as_np, hook=None):
+    """Run one traversal on the real code; returns (log, returned value).  `hook(kind, node)` is called at the start of every
+    callback (used for re-entrant and aborting callbacks)."""
     from swcgeom.core import Tree
     from swcgeom.core.swc_utils import traverse
 
@@ -51,12 +52,16 @@ def traverse_once(api, t, ids, pids, start, mode, as_np):
 
     def enter(x, pv):
         i = ident(x)
+        if hook is not None:
+            hook("enter", i)
         term = Term("E", i, pv)
         log.append(("enter", i, pv, term))
         return term
 
     def leave(x, cv):
         i = ident(x)
+        if hook is not None:
+            hook("leave", i)
         if not isinstance(cv, list):
             bad.append(f"leave received {type(cv).__name__} for children values")
             cv = list(cv)
@@ -274,6 +279,95 @@ def check_sweep(case, R):
     R.outcome(kind, min(n, 3), bool(limit))
 
 
+class _Abort(Exception):
+    pass
+
+
+def check_reentrant(case, R):
+    """A callback of the outer traversal itself starts a traversal (same tree, any start node; or another tree): both runs must be
+    the structural recursion over their own subtree - the walk keeps no state outside the call."""
+    p, api, start, kind, v, inner_kind, j = list(case[0]), case[1], case[2], case[3], case[4], case[5], case[6]
+    n = len(p)
+    R.state(case)
+    t = build.make_tree(p)
+    ids, pids = t.id().copy(), t.pid().copy()
+    ch = ref.children(p)
+    if inner_kind == "other":
+        p2 = [-1, 0, 0, 1][: max(2, min(4, n))]
+        t2 = build.make_tree(p2)
+        ids2, pids2 = t2.id().copy(), t2.pid().copy()
+    inner = []
+
+    def hook(k, i):
+        if k == kind and i == v and not inner:
+            inner.append(None)  # once
+            if inner_kind == "same":
+                inner[0] = traverse_once(api, t, ids, pids, j, "both", False)
+            else:
+                inner[0] = traverse_once(api, t2, ids2, pids2, j % len(p2), "both", False)
+
+    ok, res = R.impl(f"traverse:{api}:reentrant", traverse_once, api, t, ids, pids, start, "both", False, hook)
+    if not ok:
+        return
+    log, ret, bad = res
+    why = judge(p, ch, start, "both", log, ret, bad)
+    ctx = f"p={p} api={api} outer start={start}; inner traversal ({inner_kind} tree, start {j}) launched from the {kind} callback of node {v}"
+    if why:
+        R.fail("traversal", f"{ctx}: OUTER run: {why}", f"traversal:{api}:reentrant:outer")
+    if inner and inner[0] is not None:
+        ilog, iret, ibad = inner[0]
+        if inner_kind == "same":
+            why2 = judge(p, ch, j, "both", ilog, iret, ibad)
+        else:
+            why2 = judge(p2, ref.children(p2), j % len(p2), "both", ilog, iret, ibad)
+        if why2:
+            R.fail("traversal", f"{ctx}: INNER run: {why2}", f"traversal:{api}:reentrant:inner")
+    R.outcome(len(log), bool(inner))
+
+
+def check_abort(case, R):
+    """A traversal is aborted by an exception raised in one of its callbacks; every later traversal (same tree, every start; another
+    tree) must be unaffected by what the aborted one left behind."""
+    p, api, kind, v = list(case[0]), case[1], case[2], case[3]
+    n = len(p)
+    R.state(case)
+    t = build.make_tree(p)
+    ids, pids = t.id().copy(), t.pid().copy()
+    ch = ref.children(p)
+
+    def hook(k, i):
+        if k == kind and i == v:
+            raise _Abort()
+
+    try:
+        traverse_once(api, t, ids, pids, 0, "both", False, hook)
+        aborted = False
+    except _Abort:
+        aborted = True
+    except Exception as e:  # noqa: BLE001 - how the library surfaces a callback's exception is not part of the property
+        aborted = True
+        R.note("abort-surfaced-as:" + type(e).__name__)
+    R.trans()
+    if not aborted:
+        R.note("callback-never-reached")
+    for start in range(n):
+        ok, res = R.impl(f"traverse:{api}:after-abort", traverse_once, api, t, ids, pids, start, "both", False)
+        if ok:
+            why = judge(p, ch, start, "both", *res)
+            if why:
+                R.fail("traversal", f"p={p} api={api} start={start}, after a traversal aborted in the {kind} callback of node {v}: {why}",
+                       f"traversal:{api}:after-aborted-traversal")
+    p2 = [-1, 0, 1, 1, 0]
+    t2 = build.make_tree(p2)
+    ok, res = R.impl(f"traverse:{api}:after-abort:other-tree", traverse_once, api, t2, t2.id().copy(), t2.pid().copy(), 0, "both", False)
+    if ok:
+        why = judge(p2, ref.children(p2), 0, "both", *res)
+        if why:
+            R.fail("traversal", f"other tree {p2} api={api}, after a traversal of p={p} aborted in the {kind} callback of node {v}: {why}",
+                   f"traversal:{api}:after-aborted-traversal:other-tree")
+    R.outcome(aborted, kind)
+
+
 def spaces(tier, seed):
     hi = 6 if tier == "quick" else 7
     lim_hi = 5 if tier == "quick" else 6
@@ -315,7 +409,35 @@ def spaces(tier, seed):
             yield ("chain", n, 40)
             yield ("revchain", n, 40)
 
+    re_hi = 5 if tier == "quick" else 6
+
+    def gen_reentrant():
+        for n in range(1, re_hi + 1):
+            for p in S.labelled_trees(n):
+                for api in ("topology", "tree", "node"):
+                    for start in range(n):
+                        sub = ref.descendants_or_self(list(p), start)
+                        for kind in ("enter", "leave"):
+                            for v in sub:
+                                for j in range(n):
+                                    yield (p, api, start, kind, v, "same", j)
+                                yield (p, api, start, kind, v, "other", v)
+
+    def gen_abort():
+        for n in range(1, re_hi + 2):
+            for p in S.labelled_trees(n):
+                for api in ("topology", "tree"):
+                    for kind in ("enter", "leave"):
+                        for v in range(n):
+                            yield (p, api, kind, v)
+
     return [
+        Space.of("reentrant-callbacks", gen_reentrant, check_reentrant,
+                 bounds={"LT_max_nodes": re_hi, "outer": "every start, both callbacks", "launch_point": "every (enter|leave, node) of the outer subtree",
+                         "inner": "same tree from every start node; a fixed other tree", "apis": list(APIS)}),
+        Space.of("aborted-then-traverse", gen_abort, check_abort,
+                 bounds={"LT_max_nodes": re_hi + 1, "abort_point": "every (enter|leave, node)", "afterwards": "every start on the same tree; another tree",
+                         "apis": ["topology", "tree"]}),
         Space.of("query-edit-query", gen_edit, check_tree, bounds={"ST_max_nodes": ed_hi, "edits": "every single re-parenting that keeps the tree well-formed", "how": build.EDIT_HOWS}),
         Space.of("depth-sweep", gen_sweep, check_sweep, bounds={"chain_lengths": f"every n in 1..{sweep_hi} (default recursion limit); every n in 1..200 with recursion headroom 40"}, case_timeout=600),
         Space.of("trees", gen, check_tree, bounds={"LT_max_nodes": hi, "starts": "all", "modes": MODES, "apis": APIS}),
